@@ -127,6 +127,12 @@ type RunResult struct {
 func Finish(verifDir, prop, tier string, seed int, start time.Time, sink *Sink, known *KnownFile,
 	explanation string, notDecided, assumptions []string, extra map[string]any) int {
 	var res RunResult
+	if assumptions == nil {
+		assumptions = []string{}
+	}
+	if notDecided == nil {
+		notDecided = []string{}
+	}
 	knownSet := map[string]KnownFinding{}
 	for _, k := range known.Known {
 		knownSet[k.Property+"|"+k.Key] = k
